@@ -226,16 +226,21 @@ CLAIMED = {
        "confidence_region}); every noise-like parameter registered with a constraint reads as constraint.transform(raw) inside [lower, upper] for "
        "all raw values (the site contract on the noise sites found in gpytorch/ on this run); HeteroskedasticNoise.forward = diag(constraint."
        "transform(noise-model mean[, indices])) with the noise model restored to its mode; the Gaussian marginal adds exactly that noise to the "
-       "diagonal. Bounded tier (not counted, and the ONLY tier for the PSD clauses): symmetry / smallest eigenvalue of Gram matrices of 33 kernel "
+       "diagonal; Lean 4 / Mathlib lemmas over the C01 / C14 contracts (lean/Psd.lean, lean/Mono.lean; re-checked by lean on every run, axioms audited): the "
+       "closed forms those contracts pin down -- Kss - Kxs^T (Kxx+N)^-1 Kxs, Kxx - Kxz Kzz^-1 Kzx + (Kzz^-1 Kzx)^T S (Kzz^-1 Kzx) and its whitened form -- "
+       "are PSD over the reals when the joint prior covariance and N / S are PSD and the solved matrix is positive definite; prior - posterior is PSD; the "
+       "posterior covariance given old + added observations is below the one given the old observations in the PSD order. Bounded tier (not counted; the "
+       "ONLY tier for kernel Gram matrices and for rounding effects): symmetry / smallest eigenvalue of Gram matrices of 33 kernel "
        "classes on duplicated and nearly coincident rows over three lengthscale regimes; prior / posterior / variational / marginal covariances PSD, "
        "prior - posterior PSD, nested training sets never increase a variance, variance floors under non-default min_variance, noise >= bounds.",
   design_ref="DESIGN.md section 5, C07",
-  note="Positive semi-definiteness is a theorem of analysis about values (Bochner, Schur complement), not a postcondition a solver can discharge "
-       "from the code: it is checked numerically only (float64, tolerance 1e-8*scale on Gram matrices, 1e-6*scale on model covariances, 1e-2 on "
+  note="Positive semi-definiteness of kernel Gram matrices is a theorem of analysis about values (Bochner), not a postcondition a solver can discharge "
+       "from the code: it is checked numerically only; for the model covariances the code-to-closed-form step is proved in C01 / C14 and the closed-form-is-PSD "
+       "step in Lean over the reals, with rounding left to the numerical tier (float64, tolerance 1e-8*scale on Gram matrices, 1e-6*scale on model covariances, 1e-2 on "
        "the CG path). FixedNoiseGaussianLikelihood's settings.min_fixed_noise floor is documented for construction only and is not demanded of "
        "later assignments (no constraint is involved). Known findings (kinked kernels on the requires_grad path, HammingIMQ batching, KISS + "
        "fixed-noise fantasies) are listed in known_findings.json.",
-  technique="contract-based deductive verification for the variance-floor and noise-bound clauses (AST-extracted real functions, z3); numerical enumeration (bounded) for the PSD clauses"),
+  technique="contract-based deductive verification for the variance-floor and noise-bound clauses (AST-extracted real functions, z3) plus Lean 4 / Mathlib lemmas over the C01 / C14 contracts for PSD of the model covariances; numerical enumeration (bounded) for kernel Gram matrices and rounding"),
  "C01": dict(
   category="other",
   text="Proof tier (counted): the assembly of the closed-form conditional from the REAL prediction code, with the linear solve as a callee "
